@@ -794,6 +794,78 @@ def self_unsub_probe(kind, who, bad_name=False):
     return simnet.run(go)
 
 
+def mutating_subscriber_probe(kind):
+    """A subscriber that treats what it receives as its own (appends to the lists, adds to the dicts, overwrites the attributes of the
+    model it was handed - a scanner folding the previous advertisement into the new one does that); a second client of the same
+    process listens too. Every later message still arrives, on both clients, as the model of THAT message's values.
+    Returns a list of problems."""
+    async def go(loop):
+        import dataclasses
+        from aioesphomeapi import api_pb2 as pb
+        from aioesphomeapi import model
+        from checks.c14 import plain
+        net = simnet.Net(loop)
+        problems = []
+        if kind == "adv":
+            msgs = [pb.BluetoothLEAdvertisementResponse(address=7, rssi=-50, name=b"a", address_type=1),
+                    pb.BluetoothLEAdvertisementResponse(address=8, rssi=-51, name=b"b", address_type=0),
+                    pb.BluetoothLEAdvertisementResponse(address=9, rssi=-52, name=b"c", address_type=1, service_uuids=["0000180f-0000-1000-8000-00805f9b34fb"]),
+                    pb.BluetoothLEAdvertisementResponse(address=7, rssi=-53, name=b"a", address_type=1)]
+            mdl = model.BluetoothLEAdvertisement
+            sub = "subscribe_bluetooth_le_advertisements"
+        else:
+            msgs = [pb.HomeassistantServiceResponse(service="light.turn_on"),
+                    pb.HomeassistantServiceResponse(service="light.turn_off", is_event=False),
+                    pb.HomeassistantServiceResponse(service="x.y", data=[pb.HomeassistantServiceMap(key="k", value="v")]),
+                    pb.HomeassistantServiceResponse(service="light.turn_on")]
+            mdl = model.HomeassistantServiceCall
+            sub = "subscribe_service_calls"
+        want = [plain(mdl.from_pb(m)) for m in msgs]
+
+        def spoil(obj):
+            for f in dataclasses.fields(obj):
+                v = getattr(obj, f.name)
+                try:
+                    if isinstance(v, list):
+                        v.append("spoiled")
+                    elif isinstance(v, dict):
+                        v["spoiled"] = "spoiled"
+                    elif isinstance(v, (str, bytes, int)) and not isinstance(v, bool):
+                        setattr(obj, f.name, type(v)())
+                except Exception:  # noqa: BLE001  (frozen models refuse: fine)
+                    pass
+        with net.patched():
+            cli_a, tr_a = await simnet.connected_client(loop, net)
+            cli_b, tr_b = await simnet.connected_client(loop, net)
+            got_a, got_b = [], []
+
+            def on_a(obj):
+                got_a.append(plain(obj))
+                spoil(obj)
+            getattr(cli_a, sub)(on_a)
+            getattr(cli_b, sub)(lambda obj: got_b.append(plain(obj)))
+            await simnet.drain(loop)
+            for m in msgs:
+                tr_a.feed(simnet.plain_msg(m))
+                await simnet.drain(loop)
+                tr_b.feed(simnet.plain_msg(m))
+                await simnet.drain(loop)
+            for who, got in (("the mutating subscriber itself", got_a), ("a subscriber on ANOTHER client", got_b)):
+                if len(got) != len(msgs):
+                    problems.append(f"{who} was called {len(got)} times for {len(msgs)} messages")
+                    continue
+                for i, (g, w) in enumerate(zip(got, want)):
+                    if g != w:
+                        diff = {k: (g.get(k), w[k]) for k in w if g.get(k) != w[k]} if isinstance(g, dict) else g
+                        problems.append(f"message {i} reached {who} as {str(diff)[:200]} (received, message's own values)")
+                        break
+            for c in (cli_a, cli_b):
+                await c.disconnect(force=True)
+            await simnet.drain(loop)
+        return problems
+    return simnet.run(go)
+
+
 def run(rep, tier, seed):
     rng = random.Random(seed)
     rep.coverage["rule"] = (
@@ -853,6 +925,13 @@ def run(rep, tier, seed):
                                   f"{' (advertisement name is not valid UTF-8)' if bad_name else ''}: callbacks per message {per_msg}, expected {want}"
                                   f"{'' if alive else '; the connection was closed'}",
                                   {"kind": "self-unsub", "subscription": kind, "who": who, "bad_name": bad_name})
+    for kind in ("adv", "service-call"):
+        problems = mutating_subscriber_probe(kind)
+        rep.case(("mutating-subscriber", kind), True, sample={"mutating_subscriber": kind, "problems": problems[:2]})
+        rep.bump("probe:mutating-subscriber")
+        if problems:
+            rep.violation("C17/callback-values", f"{kind} subscription whose subscriber modifies the objects it receives: {problems[0]}; {len(problems)} problem(s)",
+                          {"kind": "mutating-subscriber", "subscription": kind})
     rep.coverage["disagreements"] = len(disagreements)
     if disagreements and not rep.violations:
         d = disagreements[0]
@@ -866,6 +945,10 @@ def run(rep, tier, seed):
 def replay(path):
     common.setup_impl_path()
     d = json.loads(open(path).read())["replay"]
+    if d.get("kind") == "mutating-subscriber":
+        problems = mutating_subscriber_probe(d["subscription"])
+        print(problems)
+        return 1 if problems else 0
     if d.get("kind") == "self-unsub":
         print(self_unsub_probe(d["subscription"], d["who"], d.get("bad_name", False)))
         return 0
